@@ -144,6 +144,10 @@ void ConcurrentExecutionQueue<T, S>::consume_until_empty() noexcept {
                                                          _queue.capacity());
     if (poped != 0) {
       events = _events.load(::std::memory_order_acquire);
+    } else if (_queue.size() != 0) {
+      // a producer has taken a ticket but not published it yet; items behind it
+      // may already be signalled, so the consumer must not give up its role
+      S::yield();
     } else if (_events.compare_exchange_strong(events, 0,
                                                ::std::memory_order_acq_rel)) {
       break;
